@@ -403,6 +403,10 @@ func ClientRun(osenv *rsyncos.Env, opts *rsyncopts.Options, conn io.ReadWriter, 
 		}
 	}
 
+	if protect, err := sender.NewFilterRuleList(opts.FilterRules()); err == nil {
+		// (rules we cannot parse are rejected by the remote sender)
+		rt.Protected = protect.Excludes
+	}
 	for _, rule := range opts.FilterRules() {
 		c.WriteInt32(int32(len(rule)))
 		c.WriteString(rule)
